@@ -142,6 +142,12 @@ def make_classes(rec, spec):
         def doPoll(self):
             rec('doPoll', self.name)
 
+    class ComUser(Base, Communicator):
+        """a communicator which itself uses other modules (a multiplexer switched through another module)"""
+
+        def communicate(self, command):
+            return command
+
     class WithIO(HasIO, Base):
         ioClass = Com
 
@@ -169,7 +175,7 @@ def make_classes(rec, spec):
         def scanModules(self):
             yield 'scanned', {'cls': Base, 'description': 'scanned module'}
     Base.flags = {m['name']: m for m in spec['mods']}
-    return {'Base': Base, 'NoPoll': NoPoll, 'Other': Other, 'Strict': Strict, 'Must': Must, 'WithIO': WithIO, 'Pin': Pin}
+    return {'Base': Base, 'NoPoll': NoPoll, 'Other': Other, 'Strict': Strict, 'Must': Must, 'ComUser': ComUser, 'WithIO': WithIO, 'Pin': Pin}
 
 
 def run_node(spec):
@@ -416,7 +422,7 @@ def check(ctx, spec):
     ctx.ok('writes-before-first-poll')
     # ready only after every poll thread finished its first round (or timed out)
     for m in spec['mods']:
-        if m.get('cls', 'Base') in ('Base', 'Strict', 'Must', 'WithIO') and not m.get('slow'):
+        if m.get('cls', 'Base') in ('Base', 'Strict', 'Must', 'ComUser', 'WithIO') and not m.get('slow'):
             name = m['name']
             first = [n for n, e in enumerate(events) if e[0] == 'read-done' and e[1] == name]
             anyslow = any(x.get('slow') for x in spec['mods'])
@@ -495,7 +501,7 @@ def gen_spec(draw):
     names = [chr(97 + i) for i in range(n)]
     mods = []
     for name in names:
-        cls = draw(st.sampled_from(['Base', 'Base', 'Base', 'NoPoll', 'Strict', 'Must', 'WithIO', 'Other', 'Pin']))
+        cls = draw(st.sampled_from(['Base', 'Base', 'Base', 'NoPoll', 'Strict', 'Must', 'ComUser', 'WithIO', 'Other', 'Pin']))
         if cls == 'Pin' and any(m.get('cls') == 'Pin' for m in mods):
             cls = 'Base'
         m = {'name': name, 'cls': cls}
@@ -531,7 +537,7 @@ def run_shard(ctx, shard):
 def run_case(ctx, case):
     try:
         ok = case['mods'] and len({m['name'] for m in case['mods']}) == len(case['mods']) and all(m['name'] for m in case['mods']) and \
-            all(m.get('cls', 'Base') in ('Base', 'NoPoll', 'Other', 'Strict', 'Must', 'WithIO', 'Pin') for m in case['mods'])
+            all(m.get('cls', 'Base') in ('Base', 'NoPoll', 'Other', 'Strict', 'Must', 'ComUser', 'WithIO', 'Pin') for m in case['mods'])
     except (KeyError, TypeError):
         ok = False
     if ok:
